@@ -174,6 +174,16 @@ def run(tier, seed, model_ok):
         for j, (what, ml) in enumerate(ms):
             trip.append(('%dm%d' % (i, j), 'B', vlib.hx('\n'.join(ml))))
         meta.append((lines, res, ms))
+    # one name defined twice, by every pair of defining constructs in both orders, then used as a value and as a
+    # register: which of these the tool refuses is not said by the property (only duplicate labels are), so these
+    # programs are compared with the model only - a change in what is refused shows as a disagreement
+    defs = {'label': 'nm:', 'equ': '.equ nm = 1', 'set': '.set nm = 2', 'def': '.def nm = r16', 'def2': '.def nm = r17', 'undef': '.undef nm', 'dseg label': '.dseg\nnm: .byte 1\n.cseg'}
+    nclash = 0
+    for a_, ta in defs.items():
+        for b_, tb in defs.items():
+            for use in ('ldi r18, nm', 'mov nm, r1', 'nop'):
+                for nm2 in ('nm', 'NM'):
+                    trip.append(('x%d' % nclash, 'B', vlib.hx(ta + '\n' + tb.replace('nm', nm2) + '\n ' + use))); nclash += 1
     impl = vlib.run_impl(trip)
     model = vlib.run_model(trip, vlib.cwd_prelude()) if model_ok else {}
     dis, vio = [], []
@@ -199,6 +209,7 @@ def run(tier, seed, model_ok):
             kinds[what] += 1
             if not m.startswith('ERR'):
                 vio.append({'what': 'mutant must fail the build (%s) but did not' % what, 'source': '\n'.join(ml), 'impl': m[:160], 'expected': 'error', 'key': what})
+    kinds['two definitions of one name (compared with the model only)'] = nclash
     return {
         'evaluations': len(trip), 'distinct_nontrivial': len({t[2] for t in trip}),
         'rule': 'seeded random programs over up to 3 .equ, 3 .set variables (re-assigned, also from themselves and from .equ), 3 .def aliases with .undef/.def sequences and 1..3 labels, used from instructions (register and immediate positions, relative branches) and data directives, definitions of .equ and labels placed anywhere (forward references), every occurrence in a random letter case; each program is built, its hand-resolved version is built, and its mutants (single definition deleted, label duplicated, alias used after .undef, every cross-class name clash and duplicate .equ) are built; distinct = distinct texts',
